@@ -402,6 +402,8 @@ func TestC16_GsxCleanupRace(t *testing.T) {
 			m.opIncoming(c, true, false)
 		}
 		park := time.Duration(rapid.IntRange(0, 3).Draw(t, "parkMs")) * time.Millisecond
+		// the manager applies the channel's transport options from inside the handler
+		handlerCallsTransport := rapid.Bool().Draw(t, "handlerCallsTransport")
 		cleaned := make(chan struct{})
 		var once bool
 		r.ev.OnCall = func(call dbl.EvCall) {
@@ -418,12 +420,15 @@ func TestC16_GsxCleanupRace(t *testing.T) {
 			case <-cleaned:
 			case <-time.After(park + 200*time.Microsecond):
 			}
+			if handlerCallsTransport {
+				r.tr.MaxLinks(c.chid, 7)
+			}
 		}
 		id := graphsync.NewRequestID()
 		rd := &dbl.ReqData{RID: id, Exts: dbl.ExtMap([]graphsync.ExtensionData{{Name: extension.ExtensionDataTransfer1_1, Data: c.openMsg(earlier > 0).ToIPLD()}})}
 		m.logf("incoming request %s for %s while CleanupChannel runs concurrently (%d earlier requests, store=%v)", id, chidStr(c.chid), earlier, withStore)
 		if !within(func() { r.gs.IncomingRequestHook(c.other, rd, &dbl.InReqActions{}) }) {
-			m.fail("C20/hook-did-not-return", "incoming-request hook did not return while a cleanup ran concurrently")
+			m.fail("C20/hook-did-not-return", "incoming-request hook did not return while a cleanup ran concurrently (handler calls into the transport: %v):\n%s", handlerCallsTransport, allStacks())
 		}
 		select {
 		case <-cleaned:
@@ -454,7 +459,9 @@ func TestC16_GsxCleanupRace(t *testing.T) {
 			m.fail("C16/store-lifetime", "the channel's store is still registered after cleanup")
 		}
 		sp.Eval()
-		fp := stats.FP("cleanup-race", role, earlier, withStore, park)
+		stats.For("C20").Eval()
+		stats.For("C20").Nontrivial(stats.FP("cleanup-race", role, earlier, withStore, park, handlerCallsTransport))
+		fp := stats.FP("cleanup-race", role, earlier, withStore, park, handlerCallsTransport)
 		sp.Nontrivial(fp)
 		sp.Class("cleanup_racing_with_incoming_request_hook")
 		if sp.WantSample() {
